@@ -379,7 +379,7 @@ fn compile_real(p: &lk::Prog, design: i32, mode: KernMode) -> Result<Real, Panic
     })
 }
 
-fn run_real(cp: &CompiledProgram, word: &[u8], left_boundary: bool, rb_override: Option<u8>) -> Result<Vec<RNode>, PanicInfo> {
+fn run_real(cp: &CompiledProgram, word: &[u8], left_boundary: bool, rb_override: Option<u8>, limit: usize) -> Result<Vec<RNode>, PanicInfo> {
     catch(|| {
         let it = cp.run_with_options(
             word.iter().map(|b| *b as char),
@@ -389,8 +389,9 @@ fn run_real(cp: &CompiledProgram, word: &[u8], left_boundary: bool, rb_override:
             },
         );
         let mut out = vec![];
-        // the compiled program cannot loop, but a broken one might: bound the iteration
-        for item in it.take(1_000_000) {
+        // the compiled program cannot loop, but a broken one might: bound the iteration a little
+        // above the expected length (anything longer is a mismatch anyway)
+        for item in it.take(limit) {
             out.push(match item {
                 RunItem::Char(c) => RNode::Char(c as u32),
                 RunItem::Kern(k) => RNode::Kern(k.0),
@@ -685,7 +686,7 @@ fn check_program(
                 return out;
             }
         };
-        let r = match run_real(&real.compiled, &spec.word, spec.left_boundary, spec.rb_override) {
+        let r = match run_real(&real.compiled, &spec.word, spec.left_boundary, spec.rb_override, m.nodes.len() + 8) {
             Ok(r) => r,
             Err(p) => {
                 obs.repo_panic(
@@ -896,7 +897,7 @@ fn handbuilt_case(idx: usize, obs: &mut Obs) {
         if o.ok && !o.has_loop {
             obs.add("handbuilt:node_level_runs_equal", o.runs);
             // and what the repository's own test expects (already known to be what TeX does)
-            if let Ok(r) = compile_real(&prog, design, KernMode::Inline).and_then(|r| run_real(&r.compiled, &word, true, None)) {
+            if let Ok(r) = compile_real(&prog, design, KernMode::Inline).and_then(|r| run_real(&r.compiled, &word, true, None, 1000)) {
                 if fmt_nodes(&r) != c.want {
                     obs.violation(
                         "handbuilt:differs-from-the-repository's-own-TeX-verified-expectation",
@@ -1190,7 +1191,7 @@ fn compare_font(
                     return Err(None);
                 }
             };
-            let r = match run_real(compiled, w, lb, None) {
+            let r = match run_real(compiled, w, lb, None, m.nodes.len() + 8) {
                 Ok(r) => r,
                 Err(p) => {
                     obs.repo_panic(&p, json!({"what": "run_with_options", "font": name, "word": fmt_word(w)}));
@@ -1327,7 +1328,7 @@ fn font_case(c: &hand::FontCase, obs: &mut Obs) {
         Ok(m) => m,
         Err(e) => return obs.inconclusive(e),
     };
-    let real = catch(|| CompiledProgram::compile_from_tfm_file(&mut font.file).0).and_then(|cp| run_real(&cp, word, true, None));
+    let real = catch(|| CompiledProgram::compile_from_tfm_file(&mut font.file).0).and_then(|cp| run_real(&cp, word, true, None, m.nodes.len() + 8));
     match real {
         Ok(r) => {
             if r != m.nodes {
